@@ -114,15 +114,15 @@ def handle : Handler
           let (rc, _, st) := insertElement k full sh
           pure (summary rc st.evs)
       | _ => none
-  | ["packet", fl, k] => do                    -- the code as it is (rc=U: the C runs into undefined behaviour here)
-      let k ← k.toNat?
-      let flags ← parseFlags fl
-      let (rc, _, st) := packetCreatePinned k flags
-      pure (summary rc st.evs)
-  | ["packetfixed", fl, k] => do               -- with the proposed repair of cif_packet_create_norm's failure handler
+  | ["packet", fl, k] => do                    -- the code as repaired by /repo commit 07fe35a
       let k ← k.toNat?
       let flags ← parseFlags fl
       let (rc, _, st) := packetCreate k flags
+      pure (summary rc st.evs)
+  | ["packetpinned", fl, k] => do              -- the pinned behaviour (rc=U: undefined behaviour when uthash's table request fails)
+      let k ← k.toNat?
+      let flags ← parseFlags fl
+      let (rc, _, st) := packetCreatePinned k flags
       pure (summary rc st.evs)
   | "copychar" :: rest => do
       let (tsh, r) ← parseShape (rest.length + 1) rest
